@@ -458,7 +458,7 @@ func (c *SCIONClient) measureClockOffsetSCION(ctx context.Context, mtrcs *scionC
 			}
 			if authKey != nil {
 				authOpt, err := e2eLayer.FindOption(slayers.OptTypeAuthenticator)
-				if err == nil {
+				if err == nil && len(authOpt.OptData) == scion.PacketAuthOptDataLen {
 					spi, algo := scion.PacketAuthOptMetadata(authOpt)
 					if spi == scion.PacketAuthSPIServer && algo == scion.PacketAuthAlgorithm {
 						_, err = spao.ComputeAuthCMAC(
